@@ -443,7 +443,7 @@ def r1(db, rep, r3ok):
         return None
 
     panics.reach_rule(db, rep, r, entries, scope_prefixes=("memory::backing::",), site_allow=SITE_ALLOW,
-                      extra_discharge=discharge, floor=8)
+                      extra_discharge=discharge, floor=5)
 
 
 _SAME_WIDTH = ("every operand is il::expr_const(_, bits) or the accumulated value of the same `bits`, so the "
